@@ -54,10 +54,14 @@ func allProbeWords() []tak.Slides {
 	return out
 }
 
+func shortProbeWords() []tak.Slides {
+	return []tak.Slides{0, 1, 2, 0x11, 0x21, 0x12, 0x111, 0x1111, 8, 0x11111111, 0x10, 0x101, 0x9, 0xf, 0x45, 0xffffffff}
+}
+
 // acceptsProbe tries every (x,y) in -1..size, every type code 0..9 except Pass, and every probe
 // word through Position.Move. Each accepted move is mapped to the AllMoves entry it is Equal
 // to; an accepted move with no such entry is reported as UNLISTED (a C03 violation in itself).
-func acceptsProbe(p *tak.Position) string {
+func acceptsProbe(p *tak.Position, full bool) string {
 	all := p.AllMoves(nil)
 	type key struct {
 		x, y int8
@@ -69,6 +73,9 @@ func acceptsProbe(p *tak.Position) string {
 		idx[k] = append(idx[k], m)
 	}
 	words := allProbeWords()
+	// reduced mode (quick tier): the slide word is varied exhaustively only for slide types from an on-board
+	// square that carries a stack (either colour); elsewhere a fixed sample of table and damaged words is used
+	short := shortProbeWords()
 	n := p.Size()
 	var buf *tak.Position
 	seen := map[tak.Move]bool{}
@@ -80,7 +87,12 @@ func acceptsProbe(p *tak.Position) string {
 				if tak.MoveType(t) == tak.Pass {
 					continue
 				}
-				for _, w := range words {
+				ws := words
+				if !full && !(x >= 0 && x < n && y >= 0 && y < n && t >= int(tak.SlideLeft) && t <= int(tak.SlideDown) &&
+					len(p.At(x, y)) > 0) {
+					ws = short
+				}
+				for _, w := range ws {
 					m := tak.Move{X: int8(x), Y: int8(y), Type: tak.MoveType(t), Slides: w}
 					if buf == nil {
 						buf = p.Clone()
@@ -120,7 +132,8 @@ func acceptsProbe(p *tak.Position) string {
 }
 
 func init() {
-	opTable["accepts"] = func(s *Session, a []string) string { return acceptsProbe(decPos(a[0])) }
+	opTable["accepts"] = func(s *Session, a []string) string { return acceptsProbe(decPos(a[0]), true) }
+	opTable["acceptsq"] = func(s *Session, a []string) string { return acceptsProbe(decPos(a[0]), false) }
 	// duplicates / Equal pairs inside AllMoves, and entries off the board (start or Dest)
 	opTable["gencheck"] = func(s *Session, a []string) string {
 		p := decPos(a[0])
@@ -232,7 +245,12 @@ func emitC03(c *Ctx, p *tak.Position, probe bool) {
 	}
 	c.Count("nmoves>=" + bucket2(len(strings.Fields(out))))
 	if probe {
-		a := c.Emit("accepts " + tok)
+		op := "acceptsq "
+		if c.Thorough() || c.R.Chance(1, 16) {
+			op = "accepts "
+			c.Count("accepts.full")
+		}
+		a := c.Emit(op + tok)
 		if strings.Contains(a, "UNLISTED") {
 			c.Count("accepts.UNLISTED")
 		}
@@ -267,7 +285,7 @@ func genC03x(c *Ctx) {
 	// quick tier: one combination in `stride`, chosen by a hash of (index, seed), so successive seeds sweep the product
 	stride := uint64(1)
 	if !c.Thorough() {
-		stride = 12
+		stride = 16
 	}
 	for n := 3; n <= 8; n++ {
 		for _, h := range heights {
@@ -316,7 +334,7 @@ func genC03x(c *Ctx) {
 		}
 	}
 	// --- 2. empty reserves (flat and capstone separately) and opening plies, on random boards
-	m := c.Scale(640, 24000)
+	m := c.Scale(480, 24000)
 	for j := 0; j < m; j++ {
 		base := randomPosition(c.R)
 		r := base.VerifRaw()
